@@ -102,6 +102,7 @@ func (ev *evaluator) evalCase(c kase) []verdict {
 	run.Count("twin_runs", 2)
 	for _, o := range []*obs{a, b} {
 		if o.GenErr != "" {
+			fmt.Fprintf(os.Stderr, "generator self-check failed in case %d: %s\n", c.Idx, o.GenErr)
 			sbx.RemoveBase()
 			run.Infra("generator self-check failed in case %d: %s", c.Idx, o.GenErr)
 		}
@@ -378,6 +379,9 @@ func main() {
 			n = atoi(v)
 		}
 		for i := 0; i < n; i++ {
+			if v := os.Getenv("C11_ONLY"); v != "" && atoi(v) != i { // development aid only
+				continue
+			}
 			c := ev.gen.genCase(i)
 			if f := os.Getenv("C11_FILTER"); f != "" && !strings.Contains(c.class(), f) { // development aid only
 				continue
